@@ -2,12 +2,12 @@
 (* Trace validation for C26. One ndjson record per case replayed on the REAL Path.Encode / Path.Decode
    (harness/internal/recordstore/zz_verif_c26_test.go), under the server zone of the case:
 
-   kind = "enc":  fmt, zone, p, u, us, off, name (the spec's name), pathUnamb, instUnamb,
+   kind = "enc":  fmt, zone, p, d, s, us, off, name (the spec's name), pathUnamb, instUnamb,
                   obs = [name  |-> what the recorder's two steps (substitute %path, Path{Start}.Encode) wrote,
                          a     |-> Decode(format, name)               (how regexp path confs find paths),
                          b     |-> Decode(format with %path substituted, name)   (how FindSegments lists)]
    kind = "cand": fmt, zone, p, file, obs = [a |-> Decode(format, file), b |-> Decode(substituted format, file)]
-   a, b = [ok, path, u, us, off, big]   (big: the instant does not fit the model's integers)
+   a, b = [ok, path, d, s, us, off, big]  (d, s: day since 1970 and second of the day, UTC)   (big: the instant does not fit the model's integers)
 
    TLC evaluates the statement's formulas (layer 2 of SegName.tla) on every record; a failing one is
    reported with the named deviation of layer 1 that explains it, if one does. Conformance of (ok, path)
@@ -55,9 +55,9 @@ ExplainRoundTrip(fmt, f, p, o, withPath) ==
 EncVerdict(r, ln) ==
     LET same == r.obs.name = r.name
         sf   == Subst(r.fmt, r.p)
-    IN /\ Monitor(RoundTripOK(r.fmt, r.p, r.u, r.us, r.obs.name, r.pathUnamb, r.instUnamb, r.obs.a, TRUE, same),
+    IN /\ Monitor(RoundTripOK(r.fmt, r.p, r.d, r.s, r.us, r.obs.name, r.pathUnamb, r.instUnamb, r.obs.a, TRUE, same),
                   [l |-> ln, monitor |-> "RoundTrip", explained |-> ExplainRoundTrip(r.fmt, r.obs.name, r.p, r.obs.a, TRUE)])
-       /\ Monitor(RoundTripOK(r.fmt, r.p, r.u, r.us, r.obs.name, r.pathUnamb, r.instUnamb, r.obs.b, FALSE, same),
+       /\ Monitor(RoundTripOK(r.fmt, r.p, r.d, r.s, r.us, r.obs.name, r.pathUnamb, r.instUnamb, r.obs.b, FALSE, same),
                   [l |-> ln, monitor |-> "RoundTripSubst", explained |-> ExplainRoundTrip(sf, r.obs.name, r.p, r.obs.b, FALSE)])
 
 CandVerdict(r, ln) ==
